@@ -33,9 +33,11 @@ def templates(rng, tier):
         out.append(mkp)
     for ck in shapes.KINDS:
         for cont in shapes.CONTS:
-            for n in range(0, 5):
+            for n in (0, 1, 2, 3, 4, 7):
                 for flavour in ("M", "R", "X"):
                     if n == 0 and flavour != "M":
+                        continue
+                    if n == 7 and cont not in ("vec", "tup"):
                         continue
                     if cont == "tup" and n == 0:
                         continue
@@ -67,7 +69,7 @@ def gen(tier, rng):
     for mk in templates(rng, tier):
         b, root = mk()
         locks = b.locks_of[root]
-        if len(locks) > 5:
+        if len(locks) > 7:
             continue
         modes = ["ex"] + (["sh"] if b.sharable[root] and locks else [])
         sets = [common.leaf_states(b.kinds[l]) for l in locks]
